@@ -397,6 +397,8 @@ def run_property(modname, tier, seed, nproc=None, only=None, verbose=False):
     if hasattr(mod, 'extra_checks') and not only:
         for x in mod.extra_checks(tier, seed):
             extra_ev.append(x)
+            if x['ok'] == 'inconclusive':
+                continue            # e.g. CrossHair "Not confirmed": recorded in the evidence, counts for nothing
             if x['ok'] is None:
                 harness_errors.append('extra check %s inconclusive: %s' % (x['label'], str(x['info'])[:300]))
             elif not x['ok']:
